@@ -16,6 +16,7 @@ import (
 	"io"
 	"io/ioutil"
 	"log"
+	"net"
 	"net/http"
 	"net/http/httptest"
 	"os"
@@ -36,6 +37,8 @@ import (
 type c16Sess struct {
 	kind      byte
 	variant   byte // ops O<x> / Q<x>: what the client's offer (x in p l n 6 m) or data channel (u) looks like
+	relayKind byte   // ops Y<x>: what the relay does with the handler's dial (x in r e h z s)
+	relayURL  string // ops Y<x>, x in r e h z: the misbehaving relay of this session
 	client    *webrtc.PeerConnection
 	offer     string
 	relayOnce sync.Once
@@ -61,6 +64,8 @@ type c16Env struct {
 	relay    *httptest.Server
 	sf       *SnowflakeProxy
 	bare     int64 // slots held by bare gets ('+') not yet returned ('-')
+	done     chan struct{} // closed when the case is over: misbehaving relays let go of their connections
+	lns      []net.Listener
 	// start mode: every poll is a new session; the handler reports its arrival (with the
 	// Clients figure) and waits, parked, for the driver to hand it the session script
 	start   bool
@@ -183,6 +188,58 @@ func c16RewriteOffer(sdp string, variant byte) (string, error) {
 	return res, nil
 }
 
+// The relay kinds of the Y<x> ops.  The relay refusing the connection is op q.
+//
+//	r  accepts the TCP connection and resets it at once
+//	e  reads the upgrade request and closes the connection without answering
+//	h  answers the upgrade request with an HTTP error
+//	z  reads the upgrade request and never answers (the connection stays open until the case is over)
+//	s  completes the WebSocket handshake and then neither reads nor writes (handleRelay, on the ordinary test relay)
+const c16HandshakeTimeout = 45 * time.Second // HandshakeTimeout of websocket.DefaultDialer
+
+func (e *c16Env) faultyRelay(kind byte) (string, error) {
+	ln, err := net.Listen("tcp", "127.0.0.1:0")
+	if err != nil {
+		return "", err
+	}
+	e.lns = append(e.lns, ln)
+	readRequest := func(c net.Conn) {
+		r := bufio.NewReader(c)
+		for {
+			line, err := r.ReadString('\n')
+			if err != nil || line == "\r\n" || line == "\n" {
+				return
+			}
+		}
+	}
+	go func() {
+		for {
+			c, err := ln.Accept()
+			if err != nil {
+				return
+			}
+			go func(c net.Conn) {
+				defer c.Close()
+				switch kind {
+				case 'r':
+					if tc, ok := c.(*net.TCPConn); ok {
+						tc.SetLinger(0)
+					}
+				case 'e':
+					readRequest(c)
+				case 'h':
+					readRequest(c)
+					io.WriteString(c, "HTTP/1.1 403 Forbidden\r\nContent-Length: 0\r\nConnection: close\r\n\r\n")
+				case 'z':
+					readRequest(c)
+					<-e.done
+				}
+			}(c)
+		}
+	}()
+	return "ws://" + ln.Addr().String() + "/", nil
+}
+
 func c16PollBody(offer, relayURL string) []byte {
 	b, _ := json.Marshal(map[string]string{"Status": "client match", "Offer": offer, "NAT": "unknown", "RelayURL": relayURL})
 	return b
@@ -261,6 +318,12 @@ func (e *c16Env) handleProxy(w http.ResponseWriter, r *http.Request) {
 		w.Write(c16PollBody(`{"type":"offer","sdp":"garbage"}`, e.relayURL(idx)))
 	case 'q':
 		w.Write(c16PollBody(s.offer, "ws://127.0.0.1:1/"))
+	case 'Y':
+		if s.relayKind == 's' {
+			w.Write(c16PollBody(s.offer, e.relayURL(idx)))
+		} else {
+			w.Write(c16PollBody(s.offer, s.relayURL))
+		}
 	default: // a g m t T o A
 		w.Write(c16PollBody(s.offer, e.relayURL(idx)))
 	}
@@ -304,7 +367,7 @@ func (e *c16Env) handleAnswer(w http.ResponseWriter, r *http.Request) {
 		case <-time.After(c16Patience(10 * time.Second)):
 		}
 		http.Error(w, "scripted late failure", http.StatusInternalServerError)
-	default: // o q T
+	default: // o q T Y
 		apply()
 		w.Write([]byte(`{"Status":"success"}`))
 	}
@@ -327,6 +390,12 @@ func (e *c16Env) handleRelay(w http.ResponseWriter, r *http.Request) {
 	e.mu.Unlock()
 	if s != nil {
 		s.relayOnce.Do(func() { close(s.relayConn) })
+	}
+	if s != nil && s.relayKind == 's' {
+		// the relay stalls after the handshake: nothing is read, nothing is written
+		<-e.done
+		ws.Close()
+		return
 	}
 	for {
 		if _, _, err := ws.ReadMessage(); err != nil {
@@ -488,6 +557,19 @@ func (e *c16Env) op(o string) string {
 	} else if kind == 'O' || kind == 'Q' {
 		return "!badop"
 	}
+	if kind == 'Y' {
+		if len(o) != 2 || strings.IndexByte("rehzs", o[1]) < 0 {
+			return "!badop"
+		}
+		s.relayKind = o[1]
+		if o[1] != 's' {
+			u, err := e.faultyRelay(o[1])
+			if err != nil {
+				return "!relay " + err.Error()
+			}
+			s.relayURL = u
+		}
+	}
 	if kind == 'w' && len(o) > 1 {
 		// w<round>/<round>/...  round = "_" or '.'-separated ids of sessions to end
 		for _, r := range strings.Split(o[1:], "/") {
@@ -504,10 +586,10 @@ func (e *c16Env) op(o string) string {
 			s.rounds = append(s.rounds, ids)
 		}
 		s.answered = make(chan struct{}, len(s.rounds))
-	} else if s.variant == 0 && (len(o) != 1 || strings.IndexByte("ejsxkunbrRpagmtToqA+", kind) < 0) {
+	} else if s.variant == 0 && kind != 'Y' && (len(o) != 1 || strings.IndexByte("ejsxkunbrRpagmtToqA+", kind) < 0) {
 		return "!badop"
 	}
-	if strings.IndexByte("brRqagmtToA", kind) >= 0 {
+	if strings.IndexByte("brRqagmtToAY", kind) >= 0 {
 		pc, offer, err := c16NewClient(kind == 'T', &s.connected, s.variant)
 		if err != nil {
 			return "!client " + err.Error()
@@ -551,13 +633,35 @@ func (e *c16Env) op(o string) string {
 		}
 	case 'q':
 		c16WaitChange(before, chl)
+	case 'Y':
+		switch s.relayKind {
+		case 's':
+			select {
+			case <-s.relayConn:
+			case <-time.After(c16Patience(8 * time.Second)):
+				c16Degraded = true
+			}
+		case 'z':
+			// nothing comes from the relay: the handler's dial is bounded by the dialer's handshake timeout only
+			deadline := time.Now().Add(c16HandshakeTimeout + 15*time.Second)
+			for time.Now().Before(deadline) && tokens.count() == before {
+				time.Sleep(20 * time.Millisecond)
+			}
+			if tokens.count() == before {
+				c16Degraded = true
+			} else {
+				c16WaitChange(before+1, chl) // count moved: let the channel follow
+			}
+		default:
+			c16WaitChange(before, chl)
+		}
 	case 'T':
 		if atomic.LoadInt32(&s.connected) == 0 {
 			// the scenario was not exercised (no usable network interface?)
 			return "!client-never-connected " + e.result(true)
 		}
 	}
-	if s.client != nil && strings.IndexByte("oA", kind) < 0 {
+	if s.client != nil && strings.IndexByte("oA", kind) < 0 && !(kind == 'Y' && s.relayKind == 's') {
 		s.client.Close()
 	}
 	return e.result(true)
@@ -624,7 +728,7 @@ func c16Case(args []string) string {
 	if err != nil {
 		return "!badcase"
 	}
-	e := &c16Env{start: strings.HasPrefix(args[0], "start"), arrived: make(chan string, 64), next: make(chan *c16Sess)}
+	e := &c16Env{start: strings.HasPrefix(args[0], "start"), arrived: make(chan string, 64), next: make(chan *c16Sess), done: make(chan struct{})}
 	mux := http.NewServeMux()
 	mux.HandleFunc("/proxy", e.handleProxy)
 	mux.HandleFunc("/answer", e.handleAnswer)
@@ -677,6 +781,10 @@ func c16Case(args []string) string {
 		}
 	}
 	// tear down: end every handler before the next case replaces the global tokens
+	close(e.done)
+	for _, ln := range e.lns {
+		ln.Close()
+	}
 	close(e.sf.shutdown)
 	if e.start {
 		select {
